@@ -193,6 +193,8 @@ def _gen_frames(rng):
             if ufr and msg["orient"] and "cart" not in msg and msg["frame"] in _INERTIAL and rng.random() < 0.5:
                 msg["parent"] = rng.choice(ufr)
                 msg["deps"] = list(msg.get("deps", [])) + [msg["parent"]]
+            if msg["orient"] and rng.random() < 0.15:
+                msg["orient"] = rng.choice([msg["orient"].lower(), msg["orient"].capitalize()])  # the name of the local orbital frame in another case ("qsw", "Tnw")
             # an orbit derived from one that already gave its name to a frame (a copy of it, moved): a frame of its own under a new name
             bases = [m for m in msgs if m["op"] == "orbframe" and m.get("src") != "ephem" and not m.get("derive")]
             if bases and rng.random() < 0.3:
